@@ -102,6 +102,13 @@ impl TransportIntegrity {
     ) -> bool {
         self.transactions.remove(transaction_id)
     }
+
+    #[cfg(feature = "verif")]
+    pub(crate) fn verif_violated(&self) -> Vec<TransactionId> {
+        let mut ids: Vec<TransactionId> = self.transactions.iter().copied().collect();
+        ids.sort();
+        ids
+    }
 }
 
 #[cfg(test)]
